@@ -213,15 +213,99 @@ Definition merged_eqb (a b : merged) : bool :=
 Fixpoint nodupb {A} `{EqDec A} (l : list A) : bool :=
   match l with [] => true | x :: l' => negb (memb x l') && nodupb l' end.
 
-Record case := mkCase {
-  c_skip : skipset;
-  c_inputs : list dataset;
-  c_observed : option merged       (* None = the implementation raised KeyError *)
+(* ---- the caller's skip list as the object it is: a Python list of types handed to merge_remap by reference
+   (tools/kapture_merge.py: a list of type names, then of types).  The code only READS it (`X not in skip_list`),
+   so one call returns the merged dataset and leaves the list as it was; a caller may hand the same list to any
+   number of merges.  [SkOther] = a type (name) the record merges never look at (Keypoints, ..., or anything). *)
+Inductive skipname := SkTraj | SkRec2 (k : kind2) | SkRec3 (k : kind3) | SkOther (name : string).
+
+Definition kind2_code (k : kind2) : N :=
+  match k with KCamera => 1 | KDepth => 2 | KLidar => 3 | KGnss => 4 | KAccel => 5 | KGyro => 6 | KMag => 7 end%N.
+Definition kind3_code (k : kind3) : N := match k with KWifi => 8 | KBluetooth => 9 end%N.
+Definition skipname_code (x : skipname) : N * string :=
+  match x with
+  | SkTraj => (0%N, "")
+  | SkRec2 k => (kind2_code k, "")
+  | SkRec3 k => (kind3_code k, "")
+  | SkOther s => (10%N, s)
+  end.
+Definition skipname_eqb (a b : skipname) : bool :=
+  N.eqb (fst (skipname_code a)) (fst (skipname_code b)) && String.eqb (snd (skipname_code a)) (snd (skipname_code b)).
+Definition sl_has (x : skipname) (sl : list skipname) : bool := existsb (skipname_eqb x) sl.
+Fixpoint sl_eqb (a b : list skipname) : bool :=
+  match a, b with
+  | [], [] => true
+  | x :: a', y :: b' => skipname_eqb x y && sl_eqb a' b'
+  | _, _ => false
+  end.
+
+(* `kapture.X not in skip_list` for each of the ten skippable parts *)
+Definition skipset_of (sl : list skipname) : skipset :=
+  mkSkip (sl_has SkTraj sl) (fun k => sl_has (SkRec2 k) sl) (fun k => sl_has (SkRec3 k) sl).
+
+(* one call: the result, and the caller's list after the call *)
+Definition merge_remap_call (sl : list skipname) (ds : list dataset) : result merged * list skipname :=
+  (merge_remap (skipset_of sl) ds, sl).
+
+(* a session: successive merges of one process that are handed the SAME list object *)
+Fixpoint session (sl : list skipname) (steps : list (list dataset)) : list (result merged * list skipname) :=
+  match steps with
+  | [] => []
+  | ds :: rest => let r := merge_remap_call sl ds in r :: session (snd r) rest
+  end.
+
+(* a behaviour the code does NOT have, kept to show what the session cases are for: a call that "treats as
+   skipped" the parts no input has, by appending them to the list it was handed *)
+Definition all_none {A} (f : dataset -> option A) (ds : list dataset) : bool :=
+  forallb (fun d => match f d with None => true | Some _ => false end) ds.
+Definition parts_list (ct : bool) (c2 : kind2 -> bool) (c3 : kind3 -> bool) : list skipname :=
+  (if ct then [SkTraj] else [])
+  ++ flat_map (fun k => if c2 k then [SkRec2 k] else []) all_kind2
+  ++ flat_map (fun k => if c3 k then [SkRec3 k] else []) all_kind3.
+Definition absent_parts (ds : list dataset) : list skipname :=
+  parts_list (all_none d_traj ds) (fun k => all_none (fun d => d_rec2 d k) ds) (fun k => all_none (fun d => d_rec3 d k) ds).
+Fixpoint append_new (sl extra : list skipname) : list skipname :=
+  match extra with
+  | [] => sl
+  | x :: extra' => append_new (if sl_has x sl then sl else sl ++ [x]) extra'
+  end.
+Definition mark_absent (sl : list skipname) (ds : list dataset) : list skipname := append_new sl (absent_parts ds).
+Definition merge_remap_call_marking (sl : list skipname) (ds : list dataset) : result merged * list skipname :=
+  (merge_remap (skipset_of (mark_absent sl ds)) ds, mark_absent sl ds).
+Fixpoint session_marking (sl : list skipname) (steps : list (list dataset)) : list (result merged * list skipname) :=
+  match steps with
+  | [] => []
+  | ds :: rest => let r := merge_remap_call_marking sl ds in r :: session_marking (snd r) rest
+  end.
+
+(* one observed call of a session *)
+Record call_obs := mkCall {
+  k_inputs : list dataset;
+  k_observed : option merged;      (* None = the implementation raised KeyError *)
+  k_skip_after : list skipname     (* the caller's skip list, read after the call *)
 }.
 
-Definition check_case (c : case) : bool :=
-  match merge_remap (c_skip c) (c_inputs c), c_observed c with
+(* a case = the skip list the caller built + the calls made with that same list object, in order (the last one is
+   the merge the generator aimed at; every call is compared) *)
+Record case := mkCase {
+  c_skip : list skipname;
+  c_calls : list call_obs
+}.
+
+Definition check_result (r : result merged) (o : option merged) : bool :=
+  match r, o with
   | Ok m, Some o => merged_eqb m o
   | ErrKey, None => true
   | _, _ => false
   end.
+
+Fixpoint check_calls (sl : list skipname) (calls : list call_obs) : bool :=
+  match calls with
+  | [] => true
+  | c :: rest =>
+      let r := merge_remap_call sl (k_inputs c) in
+      check_result (fst r) (k_observed c) && sl_eqb (snd r) (k_skip_after c) && check_calls (snd r) rest
+  end.
+
+Definition check_case (c : case) : bool :=
+  match c_calls c with [] => false | _ => check_calls (c_skip c) (c_calls c) end.
